@@ -24,6 +24,10 @@ pub static CRASH_AT: AtomicU64 = AtomicU64::new(u64::MAX);
 /// fail this call index with FAIL_ERRNO
 pub static FAIL_AT: AtomicU64 = AtomicU64::new(u64::MAX);
 pub static FAIL_ERRNO: AtomicI32 = AtomicI32::new(0);
+/// with FAIL_AT on a write: write a prefix of the buffer (chosen by CUT_SEL; after a newline when
+/// CUT_SEL is even and the buffer has one), return the short count, and fail the NEXT mutating call
+/// with FAIL_ERRNO - the way a full disk looks to write_all
+pub static FAIL_SHORT: AtomicBool = AtomicBool::new(false);
 /// 0 = model a (everything persists), 1 = model b lose-all, 2 = model b torn (cut selector)
 pub static MODE_B: AtomicU64 = AtomicU64::new(0);
 pub static CUT_SEL: AtomicU64 = AtomicU64::new(0);
@@ -231,6 +235,17 @@ pub unsafe extern "C" fn write(fd: c_int, buf: *const c_void, n: size_t) -> ssiz
     let info = fd_info(fd);
     if let Some((_, rel)) = &info {
         if let Some(e) = mutating(&format!("write\t{rel}\t{n}")) {
+            if n >= 2 && FAIL_SHORT.swap(false, Ordering::SeqCst) {
+                let bytes = std::slice::from_raw_parts(buf as *const u8, n);
+                let sel = CUT_SEL.load(Ordering::Relaxed);
+                let lines: Vec<usize> = bytes.iter().enumerate().filter(|(i, b)| **b == b'\n' && *i + 1 < n).map(|(i, _)| i + 1).collect();
+                let keep = if sel % 2 == 0 && !lines.is_empty() { lines[((sel >> 1) % lines.len() as u64) as usize] } else { 1 + ((sel >> 1) % (n as u64 - 1)) as usize };
+                FAIL_AT.store(COUNT.load(Ordering::SeqCst), Ordering::SeqCst);
+                let f = real!("write", extern "C" fn(c_int, *const c_void, size_t) -> ssize_t);
+                let r = f(fd, buf, keep);
+                refresh(fd, false);
+                return r;
+            }
             set_errno(e);
             return -1;
         }
